@@ -42,43 +42,75 @@ Qed.
 (* ------------------------------------------------------------------ quorums *)
 
 Section Quorum.
-  Variables c0 c1 : list nat.
-  Hypothesis Hcfg : c0 <> [] \/ c1 <> [].
+  Variable F : list (list nat * list nat).
+  Hypothesis HF : inter_family F.
 
-  Lemma Qr_mono : forall p q, (forall x, p x = true -> q x = true) -> Qr c0 c1 p -> Qr c0 c1 q.
+  Lemma Qr_intro : forall cfg p, In cfg F -> joint_sat (fst cfg) (snd cfg) p -> Qr F p.
+  Proof. intros cfg p Hin H. exists cfg. split; assumption. Qed.
+
+  Lemma joint_sat_mono : forall c0 c1 p q, (forall x, p x = true -> q x = true) -> joint_sat c0 c1 p -> joint_sat c0 c1 q.
   Proof.
-    intros p q H [H0 H1]. split; (eapply maj_sat_mono; [|eassumption]); intros x _; apply H.
+    intros c0 c1 p q H [H0 H1]. split; (eapply maj_sat_mono; [|eassumption]); intros x _; apply H.
   Qed.
 
-  Lemma Qr_inter : forall p q, Qr c0 c1 p -> Qr c0 c1 q -> exists v, p v = true /\ q v = true.
+  Lemma Qr_mono : forall p q, (forall x, p x = true -> q x = true) -> Qr F p -> Qr F q.
   Proof.
-    intros p q Hp Hq. destruct (joint_intersect c0 c1 p q Hcfg Hp Hq) as (v & _ & H). exists v. exact H.
+    intros p q H (cfg & Hin & Hs). exists cfg. split; [exact Hin|]. eapply joint_sat_mono; eassumption.
   Qed.
 
-  Lemma Qr_dec : forall p, Qr c0 c1 p \/ ~ Qr c0 c1 p.
+  Lemma Qr_inter : forall p q, Qr F p -> Qr F q -> exists v, p v = true /\ q v = true.
   Proof.
-    intros p. destruct (joint_satb c0 c1 p) eqn:E.
-    - left. apply joint_satb_spec. exact E.
-    - right. intros H. apply joint_satb_spec in H. congruence.
+    intros p q (a & Ha & Hp) (b & Hb & Hq). exact (HF a b Ha Hb p q Hp Hq).
+  Qed.
+
+  Lemma Qr_dec : forall p, Qr F p \/ ~ Qr F p.
+  Proof.
+    intros p. destruct (existsb (fun cfg => joint_satb (fst cfg) (snd cfg) p) F) eqn:E.
+    - left. apply existsb_exists in E as (cfg & Hin & Hs). exists cfg. split; [exact Hin|apply joint_satb_spec; exact Hs].
+    - right. intros (cfg & Hin & Hs). apply joint_satb_spec in Hs.
+      assert (Ht : existsb (fun cfg => joint_satb (fst cfg) (snd cfg) p) F = true) by (apply existsb_exists; exists cfg; split; assumption).
+      congruence.
+  Qed.
+
+  (* within one configuration: if every member of a quorum satisfies p or fails it *)
+  Lemma joint_all_or_witness : forall c0 c1 g p, joint_sat c0 c1 g ->
+    joint_sat c0 c1 p \/ exists x, g x = true /\ p x = false.
+  Proof.
+    intros c0 c1 g p Hg.
+    destruct (forallb (fun x => implb (g x) (p x)) (c0 ++ c1)) eqn:Fb.
+    - left. rewrite forallb_forall in Fb. destruct Hg as [H0 H1]. split.
+      + eapply maj_sat_mono; [|exact H0]. intros x Hx Hgx.
+        specialize (Fb x (in_or_app _ _ _ (or_introl Hx))). rewrite Hgx in Fb. exact Fb.
+      + eapply maj_sat_mono; [|exact H1]. intros x Hx Hgx.
+        specialize (Fb x (in_or_app _ _ _ (or_intror Hx))). rewrite Hgx in Fb. exact Fb.
+    - right. clear - Fb. induction (c0 ++ c1) as [|y l IH]; [discriminate|].
+      cbn [forallb] in Fb. destruct (implb (g y) (p y)) eqn:E.
+      + apply IH. exact Fb.
+      + exists y. destruct (g y), (p y); try discriminate. split; reflexivity.
   Qed.
 
   (* if every member of a quorum satisfies p, or else p already has a quorum, p has a quorum *)
   Lemma Qr_all_or : forall g p,
-    Qr c0 c1 g -> (forall x, g x = true -> p x = true \/ Qr c0 c1 p) -> Qr c0 c1 p.
+    Qr F g -> (forall x, g x = true -> p x = true \/ Qr F p) -> Qr F p.
   Proof.
-    intros g p Hg H.
-    destruct (forallb (fun x => implb (g x) (p x)) (c0 ++ c1)) eqn:F.
-    - rewrite forallb_forall in F. destruct Hg as [H0 H1]. split.
-      + eapply maj_sat_mono; [|exact H0]. intros x Hx Hgx.
-        specialize (F x (in_or_app _ _ _ (or_introl Hx))). rewrite Hgx in F. exact F.
-      + eapply maj_sat_mono; [|exact H1]. intros x Hx Hgx.
-        specialize (F x (in_or_app _ _ _ (or_intror Hx))). rewrite Hgx in F. exact F.
-    - assert (Hex : exists x, g x = true /\ p x = false).
-      { clear - F. induction (c0 ++ c1) as [|y l IH]; [discriminate|].
-        cbn [forallb] in F. destruct (implb (g y) (p y)) eqn:E.
-        - apply IH. exact F.
-        - exists y. destruct (g y), (p y); try discriminate. split; reflexivity. }
-      destruct Hex as (x & Hgx & Hpx). destruct (H x Hgx) as [Hp|Hq]; [congruence|exact Hq].
+    intros g p (cfg & Hin & Hg) H.
+    destruct (joint_all_or_witness (fst cfg) (snd cfg) g p Hg) as [Hp|(x & Hgx & Hpx)].
+    - exists cfg. split; assumption.
+    - destruct (H x Hgx) as [Hp|Hq]; [congruence|exact Hq].
+  Qed.
+
+  Lemma Qr_witness : forall g p, Qr F g -> ~ Qr F p -> exists x, g x = true /\ p x = false.
+  Proof.
+    intros g p (cfg & Hin & Hg) Hn.
+    destruct (joint_all_or_witness (fst cfg) (snd cfg) g p Hg) as [Hp|Hw]; [|exact Hw].
+    exfalso. apply Hn. exists cfg. split; assumption.
+  Qed.
+
+  (* the family of one non-empty configuration *)
+  Lemma inter_family_single : forall c0 c1, c0 <> [] \/ c1 <> [] -> inter_family [(c0, c1)].
+  Proof.
+    intros c0 c1 Hne a b [<-|[]] [<-|[]] p q Hp Hq. cbn [fst snd] in *.
+    destruct (joint_intersect c0 c1 p q Hne Hp Hq) as (v & _ & H). exists v. exact H.
   Qed.
 End Quorum.
 
@@ -102,7 +134,7 @@ Proof.
 Qed.
 
 Section Ext.
-  Variables c0 c1 : list nat.
+  Variable F : list (list nat * list nat).
   Variables s s' : mstate.
   Hypothesis E : ext s s'.
 
@@ -145,7 +177,7 @@ Section Ext.
     - apply Nat.ltb_lt. rewrite (e_ga_frozen _ _ E x t H1). exact H2.
   Qed.
 
-  Lemma ext_neverq : forall t k, neverq c0 c1 s t k -> neverq c0 c1 s' t k.
+  Lemma ext_neverq : forall t k, neverq F s t k -> neverq F s' t k.
   Proof. intros t k H. unfold neverq in *. eapply Qr_mono; [|exact H]. apply ext_neverp. Qed.
 
   Lemma ext_ackedp : forall t k x, ackedp s t k x = true -> ackedp s' t k x = true.
@@ -154,13 +186,13 @@ Section Ext.
     pose proof (e_ga _ _ E x t). lia.
   Qed.
 
-  Lemma ext_committed_at : forall t k, committed_at c0 c1 s t k -> committed_at c0 c1 s' t k.
+  Lemma ext_committed_at : forall t k, committed_at F s t k -> committed_at F s' t k.
   Proof.
     intros t k [Hv Hq]. split; [apply ext_valid; exact Hv|].
     eapply Qr_mono; [|exact Hq]. apply ext_ackedp.
   Qed.
 
-  Lemma ext_CP : forall t c, CP c0 c1 s t c -> CP c0 c1 s' t c.
+  Lemma ext_CP : forall t c, CP F s t c -> CP F s' t c.
   Proof.
     intros t c [H1 H2]. split; [pose proof (ext_LL_len t); lia|].
     destruct H2 as [->|(t0 & k0 & Ht & Hc & Hk)]; [left; reflexivity|].
@@ -168,7 +200,7 @@ Section Ext.
   Qed.
 
   Lemma ext_has_or_never : forall L t k,
-    k <= length (LL s t) -> has s L t k \/ neverq c0 c1 s t k -> has s' L t k \/ neverq c0 c1 s' t k.
+    k <= length (LL s t) -> has s L t k \/ neverq F s t k -> has s' L t k \/ neverq F s' t k.
   Proof.
     intros L t k Hk [H|H]; [left; apply ext_has; assumption|right; apply ext_neverq; exact H].
   Qed.
@@ -177,26 +209,26 @@ End Ext.
 (* ------------------------------------------------------------------ consequences of Inv *)
 
 Section Cons.
-  Variables c0 c1 : list nat.
-  Hypothesis Hcfg : c0 <> [] \/ c1 <> [].
+  Variable F : list (list nat * list nat).
+  Hypothesis HF : inter_family F.
   Variable s : mstate.
-  Hypothesis I : Inv c0 c1 s.
+  Hypothesis I : Inv F s.
 
-  Lemma committed_not_never : forall t k, committed_at c0 c1 s t k -> neverq c0 c1 s t k -> False.
+  Lemma committed_not_never : forall t k, committed_at F s t k -> neverq F s t k -> False.
   Proof.
-    intros t k [_ Hq] Hn. destruct (Qr_inter c0 c1 Hcfg _ _ Hq Hn) as (v & Ha & Hb).
+    intros t k [_ Hq] Hn. destruct (Qr_inter F HF _ _ Hq Hn) as (v & Ha & Hb).
     unfold ackedp in Ha. unfold neverp in Hb. apply Nat.leb_le in Ha.
     apply andb_true_iff in Hb as [_ Hb]. apply Nat.ltb_lt in Hb. lia.
   Qed.
 
   (* leader completeness, ghost form *)
-  Lemma LC : forall t k t3, committed_at c0 c1 s t k -> t < t3 -> LL s t3 <> [] -> has s (LL s t3) t k.
+  Lemma LC : forall t k t3, committed_at F s t k -> t < t3 -> LL s t3 <> [] -> has s (LL s t3) t k.
   Proof.
-    intros t k t3 Hc Hlt Hne. destruct (hK7 _ _ _ I t t3 k Hlt Hne (proj1 Hc)) as [H|H]; [exact H|].
+    intros t k t3 Hc Hlt Hne. destruct (hK7 _ _ I t t3 k Hlt Hne (proj1 Hc)) as [H|H]; [exact H|].
     exfalso. eapply committed_not_never; eassumption.
   Qed.
 
-  Lemma LC_le : forall t k t3, committed_at c0 c1 s t k -> t <= t3 -> LL s t3 <> [] -> has s (LL s t3) t k.
+  Lemma LC_le : forall t k t3, committed_at F s t k -> t <= t3 -> LL s t3 <> [] -> has s (LL s t3) t k.
   Proof.
     intros t k t3 Hc Hle Hne. destruct (Nat.eq_dec t t3) as [->|Hn].
     - split; [exact (proj2 (proj1 (proj1 Hc)))|reflexivity].
@@ -225,7 +257,7 @@ Section Cons.
     assert (Hi : 1 <= S j <= length L) by lia.
     destruct (wf_in_LL L (S j) Hw Hi) as [Hlen Ht].
     assert (E : term_at L (S j) = fst e) by (rewrite term_at_S, Hj; reflexivity).
-    rewrite <- E. rewrite <- Ht. apply terms_pos_term_at; [apply (hW3 _ _ _ I)|lia].
+    rewrite <- E. rewrite <- Ht. apply terms_pos_term_at; [apply (hW3 _ _ I)|lia].
   Qed.
 
   Lemma wf_sorted : forall L, wf (LL s) L -> sorted_terms L.
@@ -235,6 +267,6 @@ Section Cons.
     destruct (wf_in_LL L j Hw ltac:(lia)) as [Hlen Ht].
     rewrite (term_at_agree L (LL s (term_at L j)) j i H Hij).
     rewrite <- Ht at 2.
-    destruct (hW3 _ _ _ I (term_at L j)) as (_ & _ & Hs). apply Hs; lia.
+    destruct (hW3 _ _ I (term_at L j)) as (_ & _ & Hs). apply Hs; lia.
   Qed.
 End Cons.
